@@ -191,11 +191,14 @@ func (r *Route) TargetConfig(t *Target, addWeight bool) string {
 }
 
 // config returns the route configuration in the config language.
-// with the weights specified by the user.
+// with the weights specified by the user. The display with the
+// effective weights (addWeight) omits targets which receive no
+// traffic; the configuration itself must list every target since
+// it is meant to be read by Parse() again.
 func (r *Route) config(addWeight bool) []string {
 	var cfg []string
 	for _, t := range r.Targets {
-		if t.Weight <= 0 {
+		if addWeight && t.Weight <= 0 {
 			continue
 		}
 		cfg = append(cfg, r.TargetConfig(t, addWeight))
